@@ -322,7 +322,7 @@ func Drive(prop, tier string, seed uint64) int {
 		fmt.Fprintln(os.Stderr, "no engine registered for", prop)
 		return 2
 	}
-	info := Engines[PropEngines[prop][0]].Describe(prop)
+	info := describeAll(prop)
 	tmp, err := os.MkdirTemp(filepath.Join(VerifDir, "bin"), "drive-"+prop+"-")
 	if err != nil {
 		fmt.Fprintln(os.Stderr, err)
@@ -617,4 +617,43 @@ func StepString(s Step) string {
 		fmt.Fprintf(&b, " [%s]", strings.Join(subs, " "))
 	}
 	return b.String()
+}
+
+// describeAll merges what the engines deciding a property say about it. When they work at
+// different levels the weaker one (exploration) is what the check as a whole claims.
+func describeAll(prop string) PropInfo {
+	names := append([]string{}, PropEngines[prop]...)
+	sort.Strings(names)
+	var out PropInfo
+	uniq := func(dst []string, src []string) []string {
+		for _, s := range src {
+			found := false
+			for _, d := range dst {
+				if d == s {
+					found = true
+				}
+			}
+			if !found {
+				dst = append(dst, s)
+			}
+		}
+		return dst
+	}
+	for i, n := range names {
+		in := Engines[n].Describe(prop)
+		if i == 0 {
+			out.Level = in.Level
+			out.Rule = in.Rule
+		} else {
+			if in.Level != out.Level {
+				out.Level = "exploration"
+			}
+			out.Rule += " || " + n + ": " + in.Rule
+		}
+		out.Assumptions = uniq(out.Assumptions, in.Assumptions)
+		out.Real = uniq(out.Real, in.Real)
+		out.Stub = uniq(out.Stub, in.Stub)
+		out.Kinds = uniq(out.Kinds, in.Kinds)
+	}
+	return out
 }
